@@ -349,9 +349,12 @@ func (p *BinaryProtocol) WriteList(desc *proto.TypeDescriptor, val interface{}, 
 	}
 
 	// unpacked List bytes format: [T(L)V][T(L)V]...
+	// the tag carries the wire type of the element: the elements of a numeric list declared
+	// [packed = false] are not length-delimited
+	elemWireType := desc.Elem().WireType()
 	for _, v := range vs {
 		// share the same field number for Tag
-		if err := p.AppendTag(fieldId, proto.BytesType); err != nil {
+		if err := p.AppendTag(fieldId, elemWireType); err != nil {
 			return err
 		}
 
